@@ -43,6 +43,34 @@
 //   - Record formatting itself (headers, folding, escaping) belongs to C02; records
 //     here carry plain identifiers, one integer annotation, acgt sequences.
 //   - Write errors belong to C18: the harness stream never fails.
+//   - Chunk sizes (huge_test.go): "every batch exactly once in increasing batch
+//     number" holds whatever the size of a formatted chunk; the statement names
+//     pkg/obiutils/gzipfile.go (the 4 KiB buffer + pgzip wrapper every writer
+//     writes into) among its anchors.  Histories therefore mix chunks of 0 bytes,
+//     of a few bytes, of 4 KiB, 64 KiB, 1 MiB (one pgzip block) and 4 MiB.  The
+//     direct WriteSeqFileChunk runs can be placed in front of that wrapper
+//     (wcase.Wfile), as WriteFasta/WriteFastq do.
+//   - Output files used again (reuse_test.go, cli_test.go): "emit every batch
+//     exactly once ... and close the output after the last one" is read on the
+//     file found after the run: it holds the output of that run and nothing else,
+//     whatever the path held before; with the append option (OptionsAppendFile,
+//     obidistribute --append) it holds its previous content followed by the
+//     output of the run.  The oracle is differential (the same run on a fresh
+//     path) on top of the oracle of the package.
+//   - WriteCSVToFile is NOT in the generator of reuse_test.go: on the pinned tree
+//     it opens its file without O_TRUNC (a shorter output leaves the tail of the
+//     previous content), but no command reaches it (obicsv writes to stdout and
+//     ignores -o).  checkReuse understands func "csv" so that a case can be
+//     replayed by hand.
+//   - Command level (cli_test.go): the output of a command is compared with the
+//     output of the same command line without --compress / in an empty directory;
+//     inputs of the path-reuse histories stay below one reader piece (<= 300 short
+//     records), so that the record order inside the obidistribute files does not
+//     depend on the schedule.  obicsv ignores -o: stdout only.  A generated FASTQ
+//     record is at most 0.8 MB (sequence + qualities): a file whose first record
+//     does not fit in the first MiB is not recognised as FASTQ by the readers
+//     ("guessed format text/plain ... not yet implemented"), which concerns the
+//     reading side, not the writers.
 package c04
 
 import (
@@ -60,7 +88,11 @@ func TestMain(m *testing.M) {
 		evid.Spec{Name: "TestPropRandomHistories", Kind: "rapid", Quick: 16000, Thorough: 400000, QuickShards: 8, ThoroughShards: 16},
 		evid.Spec{Name: "TestPropUncontrolled", Kind: "rapid", Quick: 1600, Thorough: 40000, QuickShards: 8, ThoroughShards: 16},
 	)
-	evid.Note("rule", "A case = writer (WriteFasta, WriteFastq, WriteJSON, WriteCSV, WriteSequence, WriteSeqFileChunk) x n batches with a record count each (0 = empty batch) x arrival permutation x gzip on/off x CloseFile on/off. Controlled cases use one formatting worker, so the push order is the arrival order at the writer goroutine; a small model of the re-sequencing buffer derives from the permutation which chunks are buffered and how long each drained run is. Exhaustive: every permutation x every subset of empty batches x 6 writers x gzip x close for n<=5 (quick) / n<=6 (thorough), and every permutation for n=6 / n=7..8 with three empty patterns (none, even batches, odd batches); random histories up to 12 batches with record sizes that cross the 4 KiB buffer of the stream wrapper; uncontrolled runs with 2..8 formatting workers, unequal batch sizes and schedule jitter. Oracle: the bytes received by the harness io.WriteCloser (gunzipped with compress/gzip when compression is on) re-read with independent parsers: FASTA/FASTQ ids, sequences, qualities in batch order each exactly once; encoding/json accepts the whole JSON output as one array whose i-th object is the i-th record; encoding/csv reads one header row then one row per record in order; Close exactly once after the last byte when CloseFile is requested, never otherwise, and nothing missing when the pipes are unregistered. Non-trivial = controlled history in which some batch k+1 reaches the writer before batch k (the buffered branch runs). Distinct = hash of (writer, record counts, arrival, options).")
+	evid.Note("rule", "A case = writer (WriteFasta, WriteFastq, WriteJSON, WriteCSV, WriteSequence, WriteSeqFileChunk) x n batches with a record count each (0 = empty batch) x arrival permutation x gzip on/off x CloseFile on/off. Controlled cases use one formatting worker, so the push order is the arrival order at the writer goroutine; a small model of the re-sequencing buffer derives from the permutation which chunks are buffered and how long each drained run is. Exhaustive: every permutation x every subset of empty batches x 6 writers x gzip x close for n<=5 (quick) / n<=6 (thorough), and every permutation for n=6 / n=7..8 with three empty patterns (none, even batches, odd batches); random histories up to 12 batches with record sizes that cross the 4 KiB buffer of the stream wrapper; uncontrolled runs with 2..8 formatting workers, unequal batch sizes and schedule jitter. Oracle: the bytes received by the harness io.WriteCloser (gunzipped with compress/gzip when compression is on) re-read with independent parsers: FASTA/FASTQ ids, sequences, qualities in batch order each exactly once; encoding/json accepts the whole JSON output as one array whose i-th object is the i-th record; encoding/csv reads one header row then one row per record in order; Close exactly once after the last byte when CloseFile is requested, never otherwise, and nothing missing when the pipes are unregistered. Non-trivial = controlled history in which some batch k+1 reaches the writer before batch k (the buffered branch runs). Distinct = hash of (writer, record counts, arrival, options). "+
+		"TestPropHugeChunks: the same writers (WriteSeqFileChunk placed in front of the real obiutils.CompressStream wrapper) x 1..6 batches of a few long records (case = record lengths; sequences rebuilt from batch, index, length) whose formatted chunks are 0 bytes, < 4 KiB, around 4 KiB, 5..60 KiB, around 64 KiB, 0.1..0.9 MiB, around 1 MiB (-1, 0, +1 exactly for the chunk writer), 1..2 MiB, around 4 MiB, 4..5 MiB, in the patterns free / small..HUGE..small / HUGE first / alternating / all huge x arrival permutation x gzip (3 in 4) x CloseFile; same oracle; non-trivial = a chunk of >= 64 KiB is written after a smaller non-empty write (a smaller non-empty batch or the opening of the JSON array). "+
+		"TestPropReuseToFile: WriteSequencesToFile / WriteFastaToFile / WriteFastqToFile / WriteJSONToFile (1 in 4 with paired reads and WritePairedReadsTo) x content found at the path before the first run (absent, empty, random bytes / zeros / newlines of the length of the first output -4097..+70000) x 1..4 successive runs to the same path with shrinking / growing / equal / random outputs, per-run gzip and append flags, 1..4 workers; oracle: each run on a fresh path passes the oracle above, and the reused file is exactly [previous content if append +] the fresh output (gunzipped text compared when compressed: one complete gzip stream, nothing after it); non-trivial = some run finds a non-empty file at its path. "+
+		"TestPropCLICompress: obiconvert (FASTA/FASTQ/JSON output) / obigrep -l / obicsv -i -s [...] on 1..3 generated input files (a few records; 20..400 records; 0.5..4 MB of thousands of records; 1..5 sequences of 0.2..4 MB; FASTA one-line or folded, FASTQ) in the orders small+BIG, BIG, BIG+small, small+BIG+small, BIG+BIG, medium+BIG, stdout or -o, --max-cpu default/1/2/8; oracle: the run without -Z holds every (selected) input record once in input order (independent FASTA/FASTQ parsers, encoding/json array, encoding/csv header + rows), the run with -Z is one complete gzip stream of exactly the same bytes; non-trivial = an input file of >= 0.5 MB. "+
+		"TestPropCLIReuse: obiconvert -o (also --paired-with: _R1/_R2 files), obigrep -o --save-discarded, obidistribute -c -p [--append], with/without -Z and output format flags, 1..3 runs in one directory on inputs of shrinking / growing / equal / random sizes (1..300 records), directory optionally holding files of any content under the output names before the first run; oracle: after each run every output file equals what the same command line writes in an empty directory (previous content + that with --append); non-trivial = some run finds its output names in use.")
 	evid.Main(m, "C04")
 }
 
